@@ -586,6 +586,26 @@ def arc_rails():
     return [t.rstrip() for t in out]
 
 
+def wide_frame(rng, L=None, ticks=None, left_arm=None):
+    """one connected group of more than 512 cells: a long rule with a rounded corner at its left end, a trunk going down
+    from it and a second rounded corner at the bottom whose arm comes from the left or goes to the right; ticks (`/`)
+    hang from the far end of the rule on the first two rows, so that the group is gathered from several pieces"""
+    L = L or rng.choice([515, 530, 700])
+    k = rng.range(6, 10)
+    h = rng.range(3, 6)
+    ticks = rng.chance(2, 3) if ticks is None else ticks
+    left_arm = rng.chance(1, 2) if left_arm is None else left_arm
+    rows = [" " * k + rng.choice(".,") + "-" * L + (" /" if ticks else ""),
+            " " * k + "|" + " " * L + ("/" if ticks else "")]
+    rows += [" " * k + "|" for _ in range(h)]
+    if left_arm:
+        rows.append(" " * rng.below(3) + "-" * (k - 2) + "'")
+        rows[-1] = rows[-1].rjust(k + 1) if len(rows[-1]) < k + 1 else rows[-1][len(rows[-1]) - (k + 1):]
+    else:
+        rows.append(" " * k + rng.choice("'`") + "-" * rng.range(3, 9) + ">")
+    return "\n".join(r.rstrip() for r in rows)
+
+
 def staircase(rng, n=None, kind=None):
     """an ascending or descending bar chart of `n` bars on a common base, or a comb with `n` teeth"""
     n = n or rng.choice([17, 33, 64, 65, 66, 70, 80])
@@ -710,6 +730,7 @@ def extremes_list(rng, n):
             long_things(rng, 129, 0), long_things(rng, 300, 0), long_things(rng, 257, 1), long_things(rng, 513, 2),
             long_things(rng, 257, 3), long_things(rng, 130, 4), long_things(rng, 130, 5), long_things(rng, 300, 6),
             long_things(rng, 80, 7), deep_nesting(rng)]
+    base += [wide_frame(rng, 520, True, True), wide_frame(rng, 700, True, False), wide_frame(rng)]
     base += [rail_many(rng, 257, 0), rail_many(rng, 300, 1), rail_many(rng, 513, 2), rail_many(rng, 260, 3)]
     base += [far_away(rng) for _ in range(6)] + [alias_labels(rng) for _ in range(4)]
     out = base[:n]
